@@ -54,6 +54,7 @@ def generate(args):
         from . import state as _state
         del _state.NEW_ARRAYS[:]
         fx = FuncExec(eng, qual, c, module, fn, cls)
+        res["never_returns"] = (list(c.post) == ["False"])
         obs = fx.run()
         for ob in obs:
             text, nparts = serialize(eng, ob)
@@ -63,7 +64,7 @@ def generate(args):
             res["obligations"].append({"rtext": rtext,
                 "name": ob.name, "kind": ob.kind, "label": ob.label, "lineno": ob.lineno,
                 "trace": ob.trace[-12:], "text": text, "nparts": nparts,
-                "parts": [l for l, _f in (ob.parts or [])], "expect_sat": ob.expect_sat})
+                "parts": [l for l, _f in (ob.parts or [])], "expect_sat": ob.expect_sat, "soft": getattr(ob, "soft", False)})
     except (Undecided, SpecError) as e:
         res["undecided"] = "%s: %s" % (type(e).__name__, e)
     except Exception:
@@ -120,6 +121,21 @@ def verify_many(quals, timeout=10, both=False, root=None, jobs=None):
                 elif up:
                     o["name"] = o["name"] + "." + up[0]
     for r in results:
+        # exit-path covers: a refuted (dead) path is fine unless every normal exit of the function is dead
+        soft = [o for o in r["obligations"] if o.get("soft")]
+        rets = [o for o in soft if o["label"].startswith("return-path")]
+        dead_rets = [o for o in rets if o.get("status") == "failed"]
+        keep = [o for o in r["obligations"] if not o.get("soft")]
+        if rets and not r.get("never_returns"):
+            alive = len(rets) - len(dead_rets)
+            keep.append({"name": "%s#cover:some-normal-exit-reachable" % r["function"], "kind": "cover", "label": "some-normal-exit-reachable",
+                         "lineno": None, "trace": ["%d of %d normal exit paths have satisfiable (or not refutable) hypotheses" % (alive, len(rets))],
+                         "status": "discharged" if alive > 0 else "failed", "backend": "z3",
+                         "seconds": round(sum(o.get("seconds", 0) for o in soft), 3),
+                         "reason": "" if alive > 0 else "every normal exit path has contradictory hypotheses: the proof would be vacuous",
+                         "model": {}, "model_text": "", "parts": [], "nparts": 0, "expect_sat": True})
+        r["dead_paths"] = [o["label"] + " @" + " / ".join(o["trace"][-3:]) for o in soft if o.get("status") == "failed"]
+        r["obligations"] = keep
         r["seconds"] = round(r.get("gen_seconds", 0) + sum(o.get("seconds", 0) for o in r["obligations"]), 3)
     return results
 
@@ -142,7 +158,11 @@ def main(argv):
             continue
         n = len(r["obligations"])
         ok = sum(1 for o in r["obligations"] if o["status"] == "discharged")
-        print("%s: %d/%d discharged (gen %.1fs, solver %.1fs)" % (r["function"], ok, n, r.get("gen_seconds", 0), r["seconds"]))
+        print("%s: %d/%d discharged (gen %.1fs, solver %.1fs)%s" % (r["function"], ok, n, r.get("gen_seconds", 0), r["seconds"],
+                                                                      ("  dead paths: %d" % len(r.get("dead_paths", []))) if r.get("dead_paths") else ""))
+        if "-v" in argv or "--dead" in argv:
+            for dp in r.get("dead_paths", []):
+                print("      dead: " + dp)
         for o in r["obligations"]:
             if o["status"] != "discharged" or verbose:
                 print("   %-10s %s  [%s %.2fs] %s" % (o["status"], o["name"], o["backend"], o["seconds"], o["reason"]))
